@@ -45,7 +45,8 @@ REPLAY_RE = re.compile(r'^"REPLAY\|(.*)"$')
 def parse_tlc(out):
     """-> dict(ok, states, distinct, replays, error)"""
     gen, dist = run.tlc_stats(out)
-    ok = "Model checking completed. No error has been found." in out
+    ok = ("Model checking completed. No error has been found." in out
+          or ("Running Random Simulation" in out and "Error:" not in out))
     reps = []
     for line in out.splitlines():
         m = REPLAY_RE.match(line.strip())
@@ -63,8 +64,13 @@ def parse_tlc(out):
     return {"ok": ok, "generated": gen, "distinct": dist, "replays": reps, "error": err}
 
 
-def check_model(module, cfg_text, wd, tag, workers=8, timeout=1500, coverage=False):
+def check_model(module, cfg_text, wd, tag, workers=8, timeout=1500, coverage=False, simulate=None):
+    """simulate=(num, depth, seed): random behaviours instead of exhaustive exploration (used to draw
+    replay scripts quickly; the exhaustive run is a separate call)."""
     extra = ["-coverage", "1"] if coverage else []
+    if simulate:
+        num, depth, seed = simulate
+        extra += ["-simulate", "num=%d" % num, "-depth", str(depth), "-seed", str(seed)]
     rc, out = run.tlc(module, cfg_text, wd, tag, workers=workers, timeout=timeout, xmx="6g", extra=extra)
     res = parse_tlc(out)
     res["rc"] = rc
